@@ -23,6 +23,8 @@ import (
 	"github.com/bits-and-blooms/bloom/v3"
 	"github.com/daeuniverse/dae/common/consts"
 	"github.com/daeuniverse/dae/common/netutils"
+	ob "github.com/daeuniverse/dae/component/outbound"
+	componentdialer "github.com/daeuniverse/dae/component/outbound/dialer"
 	"github.com/daeuniverse/dae/component/sniffing"
 	"github.com/daeuniverse/outbound/netproxy"
 	dnsmessage "github.com/miekg/dns"
@@ -44,6 +46,9 @@ type c18Op struct {
 	Raw       string `json:"raw,omitempty"` // hex bytes of the sniffed value
 	Normalize bool   `json:"normalize,omitempty"`
 	Answer    string `json:"answer,omitempty"` // found | found6 | norecord | halffail | fail
+	// dial (chooseProxyDialer): like choose, plus the outbound the routing fallback rule names
+	RouteTo uint8  `json:"route_to,omitempty"`
+	Network string `json:"network,omitempty"`
 }
 
 type c18Case struct {
@@ -89,6 +94,8 @@ type c18Step struct {
 	NegSet  bool  `json:"neg_set,omitempty"`  // realDomainNegSet has domain after the step
 	NegDelta int64 `json:"neg_delta,omitempty"` // its expiry minus now
 	Itoa   string `json:"itoa,omitempty"`
+	FinalOutbound int `json:"final_outbound"` // dial: index of the group chosen, -1 on error
+	Err    string `json:"err,omitempty"`
 	Panic  string `json:"panic,omitempty"`
 }
 
@@ -152,6 +159,33 @@ func c18Derived(domain, lt, target string) []c18Str {
 	return out
 }
 
+// dialer groups for outbound indices 0..5, created once outside the bubbles (no timers or channels of theirs
+// are used by chooseProxyDialer)
+var c18Groups []*ob.DialerGroup
+
+type c18NoDomains struct{}
+
+func (c18NoDomains) AddSet(int, []string, consts.RoutingDomainKey) {}
+func (c18NoDomains) Build() error                                    { return nil }
+func (c18NoDomains) MatchDomainBitmap(string) []uint32               { return nil }
+
+func c18MakeGroups() {
+	lg := logrus.New()
+	lg.SetOutput(io.Discard)
+	for i := 0; i < 6; i++ {
+		d := newTestEndpointDialer()
+		g := ob.NewDialerGroup(
+			&componentdialer.GlobalOption{Log: lg, CheckInterval: time.Second},
+			fmt.Sprintf("g%d", i),
+			[]*componentdialer.Dialer{d},
+			[]*componentdialer.Annotation{{}},
+			ob.DialerSelectionPolicy{Policy: consts.DialerSelectionPolicy_Fixed, FixedIndex: 0},
+			func(bool, *componentdialer.NetworkType, bool) {},
+		)
+		c18Groups = append(c18Groups, g)
+	}
+}
+
 var c18Mu sync.Mutex
 var c18Answer string
 var c18Probes []string
@@ -190,6 +224,8 @@ func c18RunInBubble(cs c18Case, res *c18Result) {
 		cp.bootstrapResolvers = append(cp.bootstrapResolvers, netip.MustParseAddrPort(fmt.Sprintf("192.0.2.%d:53", i+1)))
 	}
 	cp.dialMode = consts.DialMode(cs.Mode)
+	cp.outbounds = c18Groups
+	cp.soMarkFromDae = 0x100
 	cp.dnsController = &DnsController{dnsControllerStore: newDnsControllerStore()}
 	res.Now0 = time.Now().UnixNano()
 	for _, op := range cs.Ops {
@@ -261,7 +297,7 @@ func c18RunInBubble(cs c18Case, res *c18Result) {
 				}
 			case "neg_set":
 				cp.realDomainNegSet.Store(c18Unhex(op.Name), time.Now().UnixNano()+op.Delta)
-			case "choose":
+			case "choose", "dial":
 				raw := c18Unhex(op.Raw)
 				lt := strings.ToLower(strings.TrimSpace(raw))
 				domain := raw
@@ -273,7 +309,37 @@ func c18RunInBubble(cs c18Case, res *c18Result) {
 				c18Answer = op.Answer
 				c18Probes = nil
 				c18Mu.Unlock()
-				target, reroute, dialIp := cp.ChooseDialTarget(consts.OutboundIndex(op.Outbound), dst, domain)
+				var target string
+				var reroute, dialIp bool
+				st.FinalOutbound = -1
+				if op.Op == "dial" {
+					cp.routingMatcher = &RoutingMatcher{
+						domainMatcher:   c18NoDomains{},
+						compiledMatches: []compiledRoutingMatch{{matchType: consts.MatchType_Fallback, outbound: consts.OutboundIndex(op.RouteTo)}},
+					}
+					res, err := cp.chooseProxyDialer(context.Background(), &proxyDialParam{
+						Outbound: consts.OutboundIndex(op.Outbound),
+						Domain:   domain,
+						Src:      netip.MustParseAddrPort("192.0.2.7:40000"),
+						Dest:     dst,
+						Network:  op.Network,
+					})
+					if err != nil {
+						st.Err = err.Error()
+					} else {
+						target, dialIp = res.DialTarget, res.IsDialIp
+						for i, g := range c18Groups {
+							if g == res.Outbound {
+								st.FinalOutbound = i
+							}
+						}
+						if res.SniffedDomain != domain {
+							st.Err = "SniffedDomain differs"
+						}
+					}
+				} else {
+					target, reroute, dialIp = cp.ChooseDialTarget(consts.OutboundIndex(op.Outbound), dst, domain)
+				}
 				synctest.Wait() // the asynchronous probe, if any, has finished (or is durably blocked: it never blocks here)
 				c18Mu.Lock()
 				st.Probes = append([]string{}, c18Probes...)
@@ -311,6 +377,7 @@ func c18RunInBubble(cs c18Case, res *c18Result) {
 }
 
 func TestVerifC18(t *testing.T) {
+	c18MakeGroups()
 	old := resolveIp46ForRealDomainProbe
 	resolveIp46ForRealDomainProbe = c18Resolver
 	defer func() { resolveIp46ForRealDomainProbe = old }()
